@@ -238,37 +238,67 @@ def build_forward_chain(run, prop, E):
     register_fn(run, tr)
     E.summaries = dict(R.radio_summaries())
     del E.summaries["fake_trx.FakeTRX._handle_data_msg_v1"]          # executed for real: it is where a burst-less message hurts
+
+    def pick_weak(E, func, args, kwargs):
+        """weakening of TrainingSeqGMSK.pick's contract that suffices for exception freedom: None, or some member (tsc 0..7, tsc_set 0)"""
+        b = args[-1]
+        if isinstance(b, SOpt):
+            b = E.deopt(b)
+        E.require("pre_pick_burst_len_148", Z(b.length) == 148, kind="pre")
+        if E.branch(z3.Bool(E.fresh("pick_none"))):
+            return None
+        k = E.fresh_int("picked.tsc")
+        E.assume(z3.And(k >= 0, k <= 7))
+        return SObj(toolkit("gsm_shared").TrainingSeqGMSK, {"tsc": SInt(k), "tsc_set": 0}, label="some-member")
+    E.summaries["gsm_shared.TrainingSeqGMSK.pick"] = pick_weak
     E.summaries.update({"data_if.DATAInterface.send_msg": T.send_msg_summary, "fake_trx.FakeTRX.sim_burst_drop": sim_drop_summary})
     fn, tn, pwr, ver, bl = z3.Int("sm.fn"), z3.Int("sm.tn"), z3.Int("sm.pwr"), z3.Int("sm.ver"), z3.Int("sm.burst.len")
     thr_ok = z3.And(T.fz("t.", "toa256_rand_threshold") >= 0, T.fz("t.", "rssi_rand_threshold") >= 0, T.fz("t.", "ci_rand_threshold") >= 0)
 
-    def setup(E):
-        t = T.mk_trx(E, "t.")
-        s = T.mk_trx(E, "s.", name="SRC")
-        E.assume(thr_ok)
-        # post-condition of parse_msg (C01/C04): any 32-bit FN, TN 0..7, any attenuation octet, version 0/1, burst absent or 1..444 octets
-        E.assume(z3.And(fn >= 0, fn < (1 << 32), tn >= 0, tn <= 7, pwr >= 0, pwr <= 255, z3.Or(ver == 0, ver == 1), bl >= 1, bl <= 444))
-        sm = SObj(dm.TxMsg, {"fn": SInt(fn), "tn": SInt(tn), "pwr": SInt(pwr), "ver": SInt(ver),
-                             "burst": SOpt(z3.Bool("sm.burst?none"), models.fresh_seq(E, "sm.burst", "bytearray", bl, 0, 255))})
-        return {"t": t, "s": s, "sm": sm}
+    hv = T.fz("t.", "_hdr_ver")
+    cases = [(v, b) for v in (0, 1) for b in ("none", "148", "444", "other")]
 
-    def invoke(E, ctx):
-        t = ctx["t"]
-        m = E.call(tr, [ctx["sm"]], {"ver": t.attrs["data_if"].attrs["_hdr_ver"]})
-        E.call(h, [t, ctx["s"], ctx["sm"], m])
-        return None
-    nret = 0
-    for p, ctx, out in run_paths(E, setup, invoke):
-        tag = {"side": "py", "what": "forward_chain"}
-        run.add(*path_obligations(run, prop, h, p, "", tag=tag))
-        if out[0] == "raise":
-            run.add(Obligation(prop, qualname(h), "clock_thread_work_never_raises_on_accepted_datagram", p.pc, z3.BoolVal(False), kind="noexc",
-                               case=out[1].cls.__name__, where=where(h), tag=dict(tag, exc=out[1].cls.__name__)))
-        else:
-            nret += 1
-            run.add(Obligation(prop, qualname(h), "clock_thread_work_never_raises_on_accepted_datagram", p.pc, z3.BoolVal(True), kind="noexc", case="returns", where=where(h), tag=tag))
-    if nret == 0:
-        run.add(Obligation(prop, qualname(h), "some_path_returns", [], z3.BoolVal(False), kind="cover", where=where(h)))
+    def one(case):
+        v, b = case
+        cs = "recipient_ver=%d,burst=%s" % (v, b)
+        obls = []
+
+        def setup(E):
+            t = T.mk_trx(E, "t.")
+            s = T.mk_trx(E, "s.", name="SRC")
+            E.assume(thr_ok)
+            E.assume(hv == v)
+            # post-condition of parse_msg (C01/C04): any 32-bit FN, TN 0..7, any attenuation octet, version 0/1, burst absent or 1..444 octets
+            E.assume(z3.And(fn >= 0, fn < (1 << 32), tn >= 0, tn <= 7, pwr >= 0, pwr <= 255, z3.Or(ver == 0, ver == 1), bl >= 1, bl <= 444))
+            none = z3.Bool("sm.burst?none")
+            E.assume(none == (b == "none"))
+            if b in ("148", "444"):
+                E.assume(bl == int(b))
+            elif b == "other":
+                E.assume(z3.And(bl != 148, bl != 444))
+            sm = SObj(dm.TxMsg, {"fn": SInt(fn), "tn": SInt(tn), "pwr": SInt(pwr), "ver": SInt(ver),
+                                 "burst": SOpt(none, models.fresh_seq(E, "sm.burst", "bytearray", bl, 0, 255))})
+            return {"t": t, "s": s, "sm": sm}
+
+        def invoke(E, ctx):
+            t = ctx["t"]
+            m = E.call(tr, [ctx["sm"]], {"ver": t.attrs["data_if"].attrs["_hdr_ver"]})
+            E.call(h, [t, ctx["s"], ctx["sm"], m])
+            return None
+        nret = 0
+        for p, ctx, out in run_paths(E, setup, invoke):
+            tag = {"side": "py", "what": "forward_chain"}
+            obls.extend(path_obligations(None, prop, h, p, cs, tag=tag))
+            if out[0] == "raise":
+                obls.append(Obligation(prop, qualname(h), "clock_thread_work_never_raises_on_accepted_datagram", p.pc, z3.BoolVal(False), kind="noexc",
+                                       case=cs + "," + out[1].cls.__name__, where=where(h), tag=dict(tag, exc=out[1].cls.__name__)))
+            else:
+                nret += 1
+                obls.append(Obligation(prop, qualname(h), "clock_thread_work_never_raises_on_accepted_datagram", p.pc, z3.BoolVal(True), kind="noexc", case=cs + ",returns", where=where(h), tag=tag))
+        if nret == 0:
+            obls.append(Obligation(prop, qualname(h), "some_path_returns", [], z3.BoolVal(False), kind="cover", case=cs, where=where(h)))
+        return obls
+    par_cases(run, E, cases, one)
     E.summaries = {}
 
 
